@@ -174,6 +174,11 @@ type Outcome struct {
 	Items  []*Outcome `json:"items,omitempty"`
 	Type   string     `json:"type,omitempty"`
 	Fields []Entry    `json:"fields,omitempty"`
+	// Also (objects at union positions only): union members declared AFTER Type whose IsTypeOf accepts the
+	// value as well. The executor takes the first accepting member in declaration order, i.e. Type — which
+	// is all the reference and the Lean drivers see. (Interface positions never get such a value: the order
+	// of an interface's implementations depends on Go map iteration in schema.New.)
+	Also []string `json:"also,omitempty"`
 	// Async: this field outcome is delivered through a ResolvePromise when the request runs with a
 	// Scheduler (see async.go); ignored by the Lean drivers and by synchronous runs.
 	Async bool `json:"async,omitempty"`
@@ -233,7 +238,7 @@ func (o *Outcome) value() interface{} {
 
 // Node converts an object outcome into the Go value resolvers receive.
 func (o *Outcome) Node() *Node {
-	n := &Node{Type: o.Type, Fields: map[string]*Outcome{}}
+	n := &Node{Type: o.Type, Fields: map[string]*Outcome{}, Also: o.Also}
 	for _, e := range o.Fields {
 		if _, dup := n.Fields[e.Key]; !dup { // first entry wins, as in the model's lookup
 			n.Fields[e.Key] = e.Out
@@ -270,6 +275,27 @@ func (o *Outcome) Sexp() hx.Sexp {
 	}
 	// "err" as a list item
 	return hx.N("leaf", hx.N("w"))
+}
+
+// HasOverlap reports whether some object of the world is accepted by several IsTypeOf (Also).
+func (o *Outcome) HasOverlap() bool {
+	if o == nil {
+		return false
+	}
+	if len(o.Also) > 0 {
+		return true
+	}
+	for _, it := range o.Items {
+		if it.HasOverlap() {
+			return true
+		}
+	}
+	for _, e := range o.Fields {
+		if e.Out.HasOverlap() {
+			return true
+		}
+	}
+	return false
 }
 
 // Clone makes a deep copy.
